@@ -245,11 +245,11 @@ class Program:
                     tree = ast.parse(src, filename=path)
                 except SyntaxError as e:
                     raise AnalysisError(f"syntax error in {rel}: {e}")
-                from .normalize import normalise
-                normalise(tree)
                 is_test = "tests" in parts
                 self.modules[name] = Module(name, path, rel, tree, src, is_test, is_pkg)
         self.digest = h.hexdigest()
+        from .normalize import normalise_program
+        normalise_program({n: m.tree for n, m in self.modules.items()}, {n for n, m in self.modules.items() if m.is_pkg})
 
     def _abs_import(self, mod: Module, level: int, name: Optional[str]) -> str:
         if level == 0:
